@@ -108,8 +108,13 @@ pub fn serialize(cell: &A5Cell) -> Result<u64, String> {
         resolution,
     } = cell;
 
-    if *resolution > MAX_RESOLUTION {
+    // The marker bit of MAX_RESOLUTION itself does not fit in the 64-bit layout
+    if *resolution >= MAX_RESOLUTION {
         return Err(format!("Resolution ({}) is too large", resolution));
+    }
+
+    if *resolution < -1 {
+        return Err(format!("Resolution ({}) is too small", resolution));
     }
 
     if *resolution == -1 {
